@@ -99,6 +99,7 @@ type c07Op struct {
 	Sel  []int64 `json:"sel,omitempty"`
 	Dt   int64   `json:"dt_s,omitempty"`
 	ID   string  `json:"epoch_id,omitempty"`
+	Via  string  `json:"via,omitempty"` // router = the application's registered message handler; msgserver = msg server on app.OperatorKeeper
 }
 
 type c07Step struct {
@@ -134,6 +135,7 @@ type c07Drv struct {
 	recIdx  map[string]int64 // record key -> record id
 	nextRec int64
 	nonce   uint64
+	msgSeq    int64
 	slashSeq  int64
 	slashUsed map[[2]int64]bool
 	msg     *operatorkeeper.MsgServerImpl
@@ -518,12 +520,35 @@ func (d *c07Drv) tx(f func(ctx sdk.Context) error) (res string) {
 	return "ok"
 }
 
+// operatorMsg delivers an operator message. Every second message goes through the handler the application REGISTERED
+// in its message service router (what a transaction reaches: the msg server built inside operator.NewAppModule from the
+// keeper the module manager was given), the others through a msg server built directly on app.OperatorKeeper.
+func (d *c07Drv) operatorMsg(op *c07Op, msg sdk.Msg, direct func(ctx sdk.Context) error) string {
+	d.msgSeq++
+	if d.msgSeq%2 == 0 {
+		op.Via = "router"
+		d.w.Count("via:router")
+		return d.tx(func(ctx sdk.Context) error {
+			h := d.app.MsgServiceRouter().Handler(msg)
+			if h == nil {
+				panic("no registered handler for " + sdk.MsgTypeURL(msg))
+			}
+			_, err := h(ctx, msg)
+			return err
+		})
+	}
+	op.Via = "msgserver"
+	d.w.Count("via:msgserver")
+	return d.tx(direct)
+}
+
 func (d *c07Drv) exec(op *c07Op) string {
 	switch op.Kind {
 	case "optinkey":
-		return d.tx(func(ctx sdk.Context) error {
-			_, err := d.msg.OptIntoAVS(sdk.WrapSDKContext(ctx), &operatortypes.OptIntoAVSReq{
-				FromAddress: d.env.Operators[op.O].String(), AvsAddress: d.avsAddr, PublicKeyJSON: d.keys[op.K].ToJSON()})
+		m := &operatortypes.OptIntoAVSReq{
+			FromAddress: d.env.Operators[op.O].String(), AvsAddress: d.avsAddr, PublicKeyJSON: d.keys[op.K].ToJSON()}
+		return d.operatorMsg(op, m, func(ctx sdk.Context) error {
+			_, err := d.msg.OptIntoAVS(sdk.WrapSDKContext(ctx), m)
 			return err
 		})
 	case "optin":
@@ -531,9 +556,10 @@ func (d *c07Drv) exec(op *c07Op) string {
 			return d.app.OperatorKeeper.OptIn(ctx, d.env.Operators[op.O], d.avsAddr)
 		})
 	case "setkey":
-		return d.tx(func(ctx sdk.Context) error {
-			_, err := d.msg.SetConsKey(sdk.WrapSDKContext(ctx), &operatortypes.SetConsKeyReq{
-				Address: d.env.Operators[op.O].String(), AvsAddress: d.avsAddr, PublicKeyJSON: d.keys[op.K].ToJSON()})
+		m := &operatortypes.SetConsKeyReq{
+			Address: d.env.Operators[op.O].String(), AvsAddress: d.avsAddr, PublicKeyJSON: d.keys[op.K].ToJSON()}
+		return d.operatorMsg(op, m, func(ctx sdk.Context) error {
+			_, err := d.msg.SetConsKey(sdk.WrapSDKContext(ctx), m)
 			return err
 		})
 	case "setkeyraw":
@@ -541,9 +567,9 @@ func (d *c07Drv) exec(op *c07Op) string {
 			return d.app.OperatorKeeper.SetOperatorConsKeyForChainID(ctx, d.env.Operators[op.O], d.chainID, d.keys[op.K])
 		})
 	case "optout":
-		return d.tx(func(ctx sdk.Context) error {
-			_, err := d.msg.OptOutOfAVS(sdk.WrapSDKContext(ctx), &operatortypes.OptOutOfAVSReq{
-				FromAddress: d.env.Operators[op.O].String(), AvsAddress: d.avsAddr})
+		m := &operatortypes.OptOutOfAVSReq{FromAddress: d.env.Operators[op.O].String(), AvsAddress: d.avsAddr}
+		return d.operatorMsg(op, m, func(ctx sdk.Context) error {
+			_, err := d.msg.OptOutOfAVS(sdk.WrapSDKContext(ctx), m)
 			return err
 		})
 	case "undelegate":
@@ -1170,6 +1196,32 @@ func (d *c07Drv) directedLowSelf(suite string, rng *rand.Rand) {
 	b.finish(suite)
 }
 
+// D9: a validating operator replaces its key, is jailed in the same epoch (it stays in the stored validator set, with
+// its previous key, until the epoch ends) and is undelegated from: the undelegation must be held like any other.
+func (d *c07Drv) directedJailedReplaced(suite string, rng *rand.Rand) {
+	b := d.begin("dir-jailed-replaced-undelegate")
+	b.do(c07Op{Kind: "setunb", N: 2})
+	for _, p := range b.last.KOp {
+		if c07In(p[0], b.last.Opted) && c07In(p[1], b.last.Vs) && !c07In(p[0], b.last.Jailed) {
+			o, oldKey := p[0], p[1]
+			b.do(c07Op{Kind: "setkey", O: o, K: b.freeKey(rng)})
+			b.do(c07Op{Kind: "jail", K: oldKey})
+			b.do(c07Op{Kind: "undelegate", O: o})
+			b.do(c07Op{Kind: "slash", K: oldKey})
+			b.block(7)
+			b.do(c07Op{Kind: "undelegate", O: o})
+			b.block(61)
+			b.do(c07Op{Kind: "undelegate", O: o}) // left the set at the epoch end: no hold any more
+			b.do(c07Op{Kind: "unjail", K: oldKey})
+			break
+		}
+	}
+	for i := 0; i < 4; i++ {
+		b.block(61)
+	}
+	b.finish(suite)
+}
+
 func (b *c07Builder) nothingScheduled() bool {
 	o := b.last
 	return len(o.QOpt) == 0 && len(o.QPrune) == 0 && len(o.QUnd) == 0 && len(o.POpt) == 0 && len(o.PPrune) == 0 && len(o.PUnd) == 0
@@ -1178,14 +1230,14 @@ func (b *c07Builder) nothingScheduled() bool {
 // ---- random histories -----------------------------------------------------------------------
 
 type c07Mix struct {
-	optinkey, optin, setkey, setkeyraw, optout, undelegate, setunb, jail, unjail, slash, clock int
+	optinkey, optin, setkey, setkeyraw, optout, undelegate, setunb, jail, unjail, slash, clock, combo int
 	blockEvery                                          int
 	pTick, pGap                                         int // per cent
 }
 
 func (d *c07Drv) random(suite string, rng *rand.Rand, mix c07Mix, steps int) {
 	b := d.begin()
-	total := mix.optinkey + mix.optin + mix.setkey + mix.setkeyraw + mix.optout + mix.undelegate + mix.setunb + mix.jail + mix.unjail + mix.slash + mix.clock
+	total := mix.optinkey + mix.optin + mix.setkey + mix.setkeyraw + mix.optout + mix.undelegate + mix.setunb + mix.jail + mix.unjail + mix.slash + mix.clock + mix.combo
 	sinceBlock := 0
 	for len(b.c.Steps) < steps {
 		if sinceBlock >= 1+rng.Intn(mix.blockEvery) {
@@ -1203,6 +1255,41 @@ func (d *c07Drv) random(suite string, rng *rand.Rand, mix c07Mix, steps int) {
 		}
 		sinceBlock++
 		x := rng.Intn(total)
+		if x >= total-mix.combo {
+			// several things about ONE validating operator inside one epoch: replace its key, jail / slash it by one of its
+			// addresses, undelegate from it (in a random order, each step optional) — interactions of the registry, the
+			// jailed flag and the hold decision that independent single ops rarely line up
+			var cand [][2]int64
+			for _, p := range b.last.KOp {
+				if c07In(p[0], b.last.Opted) && c07In(p[1], b.last.Vs) {
+					cand = append(cand, p)
+				}
+			}
+			if len(cand) > 0 {
+				p := cand[rng.Intn(len(cand))]
+				o, oldKey := p[0], p[1]
+				newKey := b.freeKey(rng)
+				steps := []c07Op{{Kind: "setkey", O: o, K: newKey}, {Kind: "jail", K: oldKey}, {Kind: "undelegate", O: o}}
+				if rng.Intn(2) == 0 {
+					steps = append(steps, c07Op{Kind: "slash", K: []int64{oldKey, newKey}[rng.Intn(2)]})
+				}
+				if rng.Intn(3) == 0 {
+					steps[1], steps[0] = steps[0], steps[1] // jailed first: the replacement through the message is refused
+				}
+				if rng.Intn(3) == 0 {
+					steps = append(steps, c07Op{Kind: "setkeyraw", O: o, K: b.freeKey(rng)})
+				}
+				steps = append(steps, c07Op{Kind: "undelegate", O: o})
+				if rng.Intn(2) == 0 {
+					steps = append(steps, c07Op{Kind: "unjail", K: []int64{oldKey, newKey}[rng.Intn(2)]})
+				}
+				for _, st := range steps {
+					b.do(st)
+				}
+				b.d.w.Count("combo")
+			}
+			continue
+		}
 		opted := func(o int64) bool { return c07In(o, b.last.Opted) }
 		removing := func(o int64) bool { return c07In(o, b.last.Rm) }
 		pickKey := func() int64 {
@@ -1279,9 +1366,10 @@ func c07Run(a *Args, suite string) error {
 	d := c07NewDrv(w)
 	d.directed(suite, rng)
 	d.directedLowSelf(suite, rng)
-	mix := c07Mix{optinkey: 22, optin: 5, setkey: 24, setkeyraw: 10, optout: 18, undelegate: 16, setunb: 4, jail: 7, unjail: 9, slash: 8, clock: 2, blockEvery: 4, pTick: 40, pGap: 6}
+	d.directedJailedReplaced(suite, rng)
+	mix := c07Mix{optinkey: 22, optin: 5, setkey: 24, setkeyraw: 10, optout: 18, undelegate: 16, setunb: 4, jail: 7, unjail: 9, slash: 8, clock: 2, combo: 5, blockEvery: 4, pTick: 40, pGap: 6}
 	if suite == "c16" {
-		mix = c07Mix{optinkey: 14, optin: 3, setkey: 13, setkeyraw: 4, optout: 14, undelegate: 40, setunb: 10, jail: 3, unjail: 4, slash: 3, clock: 4, blockEvery: 4, pTick: 40, pGap: 10}
+		mix = c07Mix{optinkey: 14, optin: 3, setkey: 13, setkeyraw: 4, optout: 14, undelegate: 40, setunb: 10, jail: 3, unjail: 4, slash: 3, clock: 4, combo: 7, blockEvery: 4, pTick: 40, pGap: 10}
 	}
 	for w.n < a.N {
 		d.random(suite, rng, mix, 18+rng.Intn(24))
